@@ -28,6 +28,10 @@
    (-3 50) = the stub's own error. *)
 From GV Require Import Lib.Bytes Lib.Res Lib.Heap Corr.Val Gen.Consts Spec.Log Spec.Cursor Spec.Wire
      Model.Binary Model.BufWriter Model.BufReader Model.StreamCodec Model.Message Corr.CodecC.
+From GV Require Model.FastCodec.
+(* thrift.Binary.Skip inside ApplicationException.FastRead: the FULL skipper model of C02/C03/C08
+   (Model/Skip.v binary_skip through FastCodec.skipf), containers included *)
+Notation skip_full := GV.Model.FastCodec.skipf.
 Open Scope N_scope.
 
 Definition msg_val (name : bytes) (ty seq : Z) (n : N) : cval := L [B name; I ty; I seq; I (Z.of_N n)].
@@ -192,7 +196,7 @@ Definition check (c : cval) : verdict :=
         if negb (fitsb 32 t) then None else
         let ex := mkex t (vbytes mv) in
         Some (marshal_fast_msg appex appex_blen appex_write [] name ty seq ex,
-              (fun mb => match unmarshal_fast_msg appex (appex_read skip_scalar) skip_scalar mb fresh_ex with
+              (fun mb => match unmarshal_fast_msg appex (appex_read skip_full) skip_full mb fresh_ex with
                          | Ok u => Some (L [B (u_method u); I (u_seq u); uerr_cls (u_err u)],
                                          L [I (ex_t (u_msg u)); B (ex_m (u_msg u))])
                          | _ => None end),
@@ -200,7 +204,7 @@ Definition check (c : cval) : verdict :=
       | 1%Z, _ | 2%Z, _ =>
         let pb := if (pk =? 2)%Z then match payload with [b] => vbytes b | _ => [] end else pbytes in
         Some (marshal_fast_msg bytes (fun p => len p) stub_write [] name ty seq pb,
-              (fun mb => match unmarshal_fast_msg (option bytes) (stub_read rf) skip_scalar mb None with
+              (fun mb => match unmarshal_fast_msg (option bytes) (stub_read rf) skip_full mb None with
                          | Ok u =>
                            Some (L [B (u_method u); I (u_seq u); uerr_cls (u_err u)],
                                  if (pk =? 2)%Z
@@ -262,13 +266,13 @@ Definition check (c : cval) : verdict :=
     let rf := negb (rfail =? 0)%Z in
     let m : option (cval * cval * bool) :=
       if (pk =? 0)%Z then
-        match unmarshal_fast_msg appex (appex_read skip_scalar) skip_scalar data fresh_ex with
+        match unmarshal_fast_msg appex (appex_read skip_full) skip_full data fresh_ex with
         | Ok u => Some (L [B (u_method u); I (u_seq u); uerr_cls (u_err u)],
                         L [I (ex_t (u_msg u)); B (ex_m (u_msg u))],
                         match u_err u with UErr e => (e =? e_unmodelled)%Z | _ => false end)
         | _ => None end
       else if (pk =? 2)%Z then
-        match unmarshal_fast_msg (option bytes) (stub_read rf) skip_scalar data None with
+        match unmarshal_fast_msg (option bytes) (stub_read rf) skip_full data None with
         | Ok u => Some (L [B (u_method u); I (u_seq u); uerr_cls (u_err u)],
                         match u_msg u with Some r => L [I 1%Z; B r] | None => L [I 0%Z; B []] end,
                         match u_err u with UErr e => (e =? e_unmodelled)%Z | _ => false end)
